@@ -317,6 +317,21 @@ func (e *Engine) runHarness(h *ssa.Function) *SchedInfo {
 		}
 		arrivals = map[*Gor][]*Config{}
 		for _, g := range e.gors {
+			// explosion guard: when a goroutine accumulates many resting configs, ask the solver which of
+			// them are feasible at all under the scheduling constraints collected so far
+			if e.settleFeas > 0 && len(g.order) > e.settleFeas {
+				for _, k := range g.order {
+					c := g.rest[k]
+					if c == nil || c.g.IsFalse() || c.feasChecked == len(e.constraints) {
+						continue
+					}
+					if !e.feasibleWith(c.g) {
+						c.g = TS.False
+					} else {
+						c.feasChecked = len(e.constraints)
+					}
+				}
+			}
 			var ord []string
 			for _, k := range g.order {
 				c := g.rest[k]
@@ -376,7 +391,7 @@ func (e *Engine) runHarness(h *ssa.Function) *SchedInfo {
 				}
 			}
 			fmt.Fprintf(os.Stderr, "step %d: resting%s firing=%d terms=%d instrs=%d\n", t, sb.String(), live, TS.next, e.instrs)
-			if os.Getenv("VERIF_DUMPREST") != "" && t == 8 {
+			if os.Getenv("VERIF_DUMPREST") != "" && fmt.Sprint(t) == os.Getenv("VERIF_DUMPREST") {
 				for _, g := range e.gors {
 					for _, k := range g.order {
 						c := g.rest[k]
